@@ -200,7 +200,8 @@ def s1bc_tree_handler(chk: Check, proj: Project, w) -> None:
     # S1c: handler that loops over the callbacks dict
     loops = []
     for st in stmts(f):
-        if isinstance(st, ast.For) and any(isinstance(a, ast.ExceptHandler) for a in ancestors(st)):
+        in_finally = any(isinstance(a, ast.Try) and any(x is st or any(y is st for y in ast.walk(x)) for x in a.finalbody) for a in ancestors(st))
+        if isinstance(st, ast.For) and (any(isinstance(a, ast.ExceptHandler) for a in ancestors(st)) or in_finally):
             it = st.iter
             base = it.func.value if isinstance(it, ast.Call) and isinstance(it.func, ast.Attribute) and it.func.attr in ("keys", "copy") else it
             if isinstance(it, ast.Call) and isinstance(it.func, ast.Name) and it.func.id in ("list", "tuple", "set") and it.args:
@@ -215,7 +216,8 @@ def s1bc_tree_handler(chk: Check, proj: Project, w) -> None:
     else:
         loop = loops[0]
         var = loop.target.id  # type: ignore[union-attr]
-        handler = next(a for a in ancestors(loop) if isinstance(a, ast.ExceptHandler))
+        handler = next((a for a in ancestors(loop) if isinstance(a, ast.ExceptHandler)), None)
+        fin_try = next((a for a in ancestors(loop) if isinstance(a, ast.Try) and any(any(y is loop for y in ast.walk(x)) for x in a.finalbody)), None) if handler is None else None
         eff = set()
         for c in calls(loop.body):
             for op, gk, spec in w.summ.call_effects(m, f, c):
@@ -235,11 +237,20 @@ def s1bc_tree_handler(chk: Check, proj: Project, w) -> None:
         chk.ob("S1c", "perfutil.component:component_post_render:handler-releases-unconditionally", m.loc((jumps or nested or [loop])[0]), not jumps and not nested,
                "the sweep has no continue / break and no conditional release" if not jumps and not nested else
                f"`{short(enclosing_stmt((jumps or nested)[0]))}` lets the sweep skip releases for some ids: a component whose renderer was already taken (it was being rendered when the error happened) keeps its context entry and provide references for good")
-        # handler must re-raise
-        ok = always_exits(handler.body) and isinstance(handler.body[-1], ast.Raise)
-        chk.ob("S1c", "perfutil.component:component_post_render:handler-reraises", m.loc(handler), ok, "tree-level handler ends in a re-raise")
+        # handler must re-raise (a `finally` re-raises by itself unless it returns / breaks out)
+        if handler is not None:
+            ok = always_exits(handler.body) and isinstance(handler.body[-1], ast.Raise)
+            chk.ob("S1c", "perfutil.component:component_post_render:handler-reraises", m.loc(handler), ok, "tree-level handler ends in a re-raise")
+        else:
+            swallow = [x for st_ in fin_try.finalbody for x in ast.walk(st_) if isinstance(x, (ast.Return, ast.Break, ast.Continue)) and not any(isinstance(a, (ast.For, ast.While)) and any(a is y for st2 in fin_try.finalbody for y in ast.walk(st2)) for a in ancestors(x))]  # type: ignore[union-attr]
+            chk.ob("S1c", "perfutil.component:component_post_render:handler-reraises", m.loc(fin_try), not swallow, "the sweep is a `finally` block without return: the error goes on to the caller")
+        # the sweep also runs when the tree rendered WITHOUT an error: a nested component whose placeholder did not make it into
+        # the final HTML (cut away by a {% filter %}, replaced by on_render_after) is registered but never collected
+        chk.ob("S1c", "perfutil.component:component_post_render:sweep-on-normal-path-too", m.loc(loop), handler is None,
+               "the sweep sits in `finally`: what a successful render registered and nothing collected is released as well" if handler is None else
+               "the sweep runs only in the `except` handler: after a SUCCESSFUL render, a nested component whose placeholder was dropped from the output (`{% filter cut:.. %}{% component .. %}{% endfilter %}`, an on_render_after that replaces the HTML) keeps its renderer, its context entry and its provide references for the life of the process")
         # the try it belongs to must cover the call that runs the queue
-        t = parent(handler)
+        t = parent(handler) if handler is not None else fin_try
         covered = [c for st in t.body for c in calls(st)] if isinstance(t, ast.Try) else []  # type: ignore[union-attr]
         qk = [c for c in covered if (tg := w.cg.resolve_callee(m, c, c.func)) is not None and any(
             isinstance(x, ast.While) for x in ast.walk(tg[1]))]
